@@ -163,7 +163,9 @@ func permuted(ns []*node, p []int) []*node {
 
 func booleanSection(r *vlib.Run, k *kit, nCases int) {
 	T := k.tag + ".bool."
-	r.Section("boolean"+k.tag, nCases, vlib.SectionOpts{}, func(c *vlib.Case) {
+	r.Section("boolean"+k.tag, nCases, vlib.SectionOpts{}, func(c0 *vlib.Case) {
+		c := newCase(c0)
+		defer c.flush()
 		rng := c.Rng
 		dyadic := rng.Intn(2) == 0
 		b := &builder{k: k, rng: rng, dyadic: dyadic}
@@ -265,15 +267,7 @@ func booleanSection(r *vlib.Run, k *kit, nCases int) {
 			}
 			// every nested node, deepest first
 			for _, nd := range nested {
-				if nd.kind == "leaf" {
-					continue
-				}
-				want := e.eval(nd, x)
-				got := nd.s.Has(x)
-				c.Count(T+"nested."+nd.kind, 1)
-				if got != want {
-					c.Violation(k.pkg+"."+nodeKey[nd.kind], fmt.Sprintf("nested %s node answers %v, formula over its operands gives %v", nd.kind, got, want),
-						map[string]interface{}{"node": nd.desc, "point": x.hex(k.dim), "point_dec": x.dec(k.dim)})
+				if !checkNode(c, k, e, nd, x, T) {
 					return
 				}
 			}
@@ -339,7 +333,9 @@ func booleanSection(r *vlib.Run, k *kit, nCases int) {
 	})
 
 	// the empty multiplexer
-	r.Section("muxempty"+k.tag, 1, vlib.SectionOpts{}, func(c *vlib.Case) {
+	r.Section("muxempty"+k.tag, 1, vlib.SectionOpts{}, func(c0 *vlib.Case) {
+		c := newCase(c0)
+		defer c.flush()
 		m := k.mux(nil)
 		for i := 0; i < 50; i++ {
 			x := vec{c.Rng.NormFloat64(), c.Rng.NormFloat64(), c.Rng.NormFloat64()}
@@ -358,10 +354,41 @@ func booleanSection(r *vlib.Run, k *kit, nCases int) {
 	})
 }
 
+// checkNode compares one combinator node with the formula over its operands at
+// x (the operands' values come from the memo, i.e. ultimately from the leaves).
+func checkNode(c *caseCtx, k *kit, e *evalCtx, nd *node, x vec, T string) bool {
+	if nd.kind == "leaf" {
+		return true
+	}
+	want := e.eval(nd, x)
+	got := nd.s.Has(x)
+	c.Count(T+"nested."+nd.kind, 1)
+	if got != want {
+		c.Violation(k.pkg+"."+nodeKey[nd.kind], fmt.Sprintf("nested %s node answers %v, formula over its operands gives %v", nd.kind, got, want),
+			map[string]interface{}{"node": nd.desc, "point": x.hex(k.dim), "point_dec": x.dec(k.dim)})
+		return false
+	}
+	return true
+}
+
+// checkTree checks every combinator below (and including) nd, deepest first.
+func checkTree(c *caseCtx, k *kit, e *evalCtx, nd *node, x vec, T string, done map[*node]bool) bool {
+	if done[nd] {
+		return true
+	}
+	done[nd] = true
+	for _, kid := range nd.kids {
+		if !checkTree(c, k, e, kid, x, T, done) {
+			return false
+		}
+	}
+	return checkNode(c, k, e, nd, x, T)
+}
+
 // muxPoint checks Contains, AllContains and IterContains (with and without
 // callback) of a mux built from the operands in order p against the operands'
 // own answers truth (indexed in the original order).
-func muxPoint(c *vlib.Case, k *kit, m muxG, ops []*node, p []int, truth []bool, x vec, any bool,
+func muxPoint(c *caseCtx, k *kit, m muxG, ops []*node, p []int, truth []bool, x vec, any bool,
 	wit func(p []int, got, want interface{}) map[string]interface{}) {
 	n := len(p)
 	T := k.tag + ".mux."
@@ -401,6 +428,8 @@ func muxPoint(c *vlib.Case, k *kit, m muxG, ops []*node, p []int, truth []bool, 
 	cbs := 0
 	for j := range seen {
 		cbs += seen[j]
+	}
+	for j := range seen {
 		if seen[j] > 1 {
 			c.Violation(api+"IterContains/index-repeated", fmt.Sprintf("callback invoked %d times for index %d", seen[j], j), wit(p, seen, want))
 		}
